@@ -1,0 +1,141 @@
+//go:build verif && linux
+// +build verif,linux
+
+package nbio
+
+import (
+	"sync/atomic"
+	"syscall"
+	"unsafe"
+)
+
+// Verification hooks (build tag "verif"). They are inert unless a harness
+// installs callbacks; without the tag every hook is an empty function.
+
+var verifPointFn atomic.Value // func(name string, c *Conn)
+
+// VerifSetPoint installs the callback invoked at the named delay points.
+func VerifSetPoint(f func(name string, c *Conn)) {
+	verifPointFn.Store(f)
+}
+
+func verifPoint(name string, c *Conn) {
+	if f, _ := verifPointFn.Load().(func(string, *Conn)); f != nil {
+		f(name, c)
+	}
+}
+
+// VerifBacklogInfo is a consistent snapshot of a connection's write backlog.
+type VerifBacklogInfo struct {
+	Left       int   // the backlog byte counter
+	BufBytes   int   // unsent bytes in queued buffers
+	FileBytes  int64 // unsent bytes in queued file ranges
+	Entries    int   // queue entries
+	WriteArmed bool  // write interest believed to be armed
+	Closed     bool
+	Fd         int
+}
+
+// VerifBacklog reads the backlog state under the connection's own mutex.
+func VerifBacklog(c *Conn) VerifBacklogInfo {
+	c.mux.Lock()
+	defer c.mux.Unlock()
+	info := VerifBacklogInfo{Left: c.left, Entries: len(c.writeList), WriteArmed: c.isWAdded, Closed: c.closed, Fd: c.fd}
+	for _, t := range c.writeList {
+		if t == nil {
+			continue
+		}
+		if t.buf != nil {
+			info.BufBytes += len(*t.buf) - int(t.offset)
+		} else {
+			info.FileBytes += t.remain
+		}
+	}
+	return info
+}
+
+// VerifReadEvents returns the pending read-event counter.
+func VerifReadEvents(c *Conn) int32 {
+	return atomic.LoadInt32(&c.readEvents)
+}
+
+// VerifJobs returns the length of the job list under the mutex.
+func VerifJobs(c *Conn) int {
+	c.mux.Lock()
+	defer c.mux.Unlock()
+	return len(c.jobList)
+}
+
+// Syscall shim. The functions below are only reached when the harness builds
+// the package with an overlay that routes the package's syscalls through
+// them; the callbacks decide whether to perform the real call (possibly with a
+// shortened length) or to return an error the kernel could legally return.
+type VerifSys struct {
+	Write    func(fd int, p []byte) (n int, err error, handled bool)
+	Read     func(fd int, p []byte) (n int, err error, handled bool)
+	Sendfile func(dst, src int, offset *int64, count int) (n int, err error, handled bool)
+	Writev   func(fd int, iovs []syscall.Iovec) (n int, err syscall.Errno, handled bool)
+	EpollCtl func(epfd, op, fd int, ev *syscall.EpollEvent) (err error, handled bool)
+}
+
+var verifSys atomic.Value // *VerifSys
+
+// VerifSetSys installs the syscall shim callbacks (nil fields pass through).
+func VerifSetSys(s *VerifSys) {
+	verifSys.Store(s)
+}
+
+func verifGetSys() *VerifSys {
+	s, _ := verifSys.Load().(*VerifSys)
+	return s
+}
+
+func verifWrite(fd int, p []byte) (int, error) {
+	if s := verifGetSys(); s != nil && s.Write != nil {
+		if n, err, ok := s.Write(fd, p); ok {
+			return n, err
+		}
+	}
+	return syscall.Write(fd, p)
+}
+
+func verifRead(fd int, p []byte) (int, error) {
+	if s := verifGetSys(); s != nil && s.Read != nil {
+		if n, err, ok := s.Read(fd, p); ok {
+			return n, err
+		}
+	}
+	return syscall.Read(fd, p)
+}
+
+func verifSendfile(dst, src int, offset *int64, count int) (int, error) {
+	if s := verifGetSys(); s != nil && s.Sendfile != nil {
+		if n, err, ok := s.Sendfile(dst, src, offset, count); ok {
+			return n, err
+		}
+	}
+	return syscall.Sendfile(dst, src, offset, count)
+}
+
+func verifEpollCtl(epfd, op, fd int, ev *syscall.EpollEvent) error {
+	if s := verifGetSys(); s != nil && s.EpollCtl != nil {
+		if err, ok := s.EpollCtl(epfd, op, fd, ev); ok {
+			return err
+		}
+	}
+	return syscall.EpollCtl(epfd, op, fd, ev)
+}
+
+// verifSyscallWritev has the shape of syscall.Syscall(SYS_WRITEV, fd, iov, cnt).
+func verifSyscallWritev(fd, iov, cnt uintptr) (uintptr, uintptr, syscall.Errno) {
+	if s := verifGetSys(); s != nil && s.Writev != nil && cnt > 0 {
+		iovs := (*[1 << 16]syscall.Iovec)(unsafe.Pointer(iov))[:int(cnt):int(cnt)]
+		if n, errno, ok := s.Writev(int(fd), iovs); ok {
+			if errno != 0 {
+				return ^uintptr(0), 0, errno
+			}
+			return uintptr(n), 0, 0
+		}
+	}
+	return syscall.Syscall(syscall.SYS_WRITEV, fd, iov, cnt)
+}
